@@ -128,6 +128,22 @@ CHECKS = {
         note=TRUST + 'Architecture restrictions (NotImplementedError) are modelled and excluded as in the property.',
         technique='Rocq proof (induction over member lists) + exhaustive small-scope co-execution against the Python code',
     ),
+    'C16': dict(
+        ref='5.16',
+        text='Theorems in coq/Properties/C16.v (partial) about a scanner model that follows the clear-sign pattern group by '
+             'group: for every text the result of remove_signature is a contiguous part of the input (never None); without '
+             'envelope, or with an envelope whose signed part cannot be read, the input is returned unchanged; for every '
+             'well-formed message (armor line, optional Hash header, empty line, any number of text lines, a matching signature '
+             'block without inner block) the result is exactly the lines of the signed text without the final line end. The '
+             'scanner is co-executed with the compiled pattern unsign.pgp_signed (match, cleartext group), is_signed and '
+             'remove_signature on generated well-formed LF/CRLF messages and malformed variants. NOT proved: polynomial '
+             'running time of CPython\'s regex engine; it is measured on every run (LF/CRLF, well-formed, damaged CRC/END line, '
+             'many armor headers, long Hash values; sizes doubling to 1024/4096 lines; a ratio above 8 or a call above 5 s is '
+             'a violation; every call runs in a worker process with a hard timeout).',
+        note=TRUST + 'The pattern is modelled by a hand-written scanner (validated by co-execution); running time is an '
+             'observation about the interpreter, not a theorem.',
+        technique='Rocq proof over a scanner model (partial) + differential co-execution against the compiled regex + timing measurement',
+    ),
     'C17': dict(
         ref='5.17',
         text='Theorems in coq/Properties/C17.v: for every name, version string, architecture and directory prefix (no '
